@@ -132,6 +132,72 @@ def mir_side_condition():
     return True, "unwind path of the converter call (%s) drops nothing" % um.group(1)
 
 
+def refusal_side_condition():
+    """C10, the clause Kani cannot see (no unwinding): when a refusal assertion fails, the input vector is
+    still owned by the function's frame, so unwinding drops it element by element. On the MIR of the current
+    tree: at every `assert_failed` call of try_convert_vec_in_place the unwind path drops the input parameter
+    `_1`, and the drop flag guarding that drop is definitely set there (forward data-flow over the CFG)."""
+    rc, out, dt = sh(["cargo", "+nightly", "rustc", "--offline", "-p", "truc_runtime", "--lib", "--target-dir",
+                      os.path.join(BUILD, "mir-rt"), "--", "-Zunpretty=mir", "-C", "debug-assertions=off"],
+                     cwd=REPO, env=env_offline())
+    if "try_convert_vec_in_place" not in out:
+        os.utime(os.path.join(REPO, "truc_runtime/src/lib.rs"))
+        rc, out, dt = sh(["cargo", "+nightly", "rustc", "--offline", "-p", "truc_runtime", "--lib", "--target-dir",
+                          os.path.join(BUILD, "mir-rt"), "--", "-Zunpretty=mir", "-C", "debug-assertions=off"],
+                         cwd=REPO, env=env_offline())
+    m = re.search(r"\nfn (?:convert::)?try_convert_vec_in_place\(.*?\n\}\n", out, re.S)
+    if not m:
+        return None, "function not found in the MIR dump"
+    body = m.group(0)
+    blocks = {}
+    for bm in re.finditer(r"\n    (bb\d+)(?: \(cleanup\))?: \{\n(.*?)\n    \}", body, re.S):
+        blocks[bm.group(1)] = bm.group(2)
+    succ = {b: re.findall(r"(bb\d+)", t.strip().split("\n")[-1]) for b, t in blocks.items()}
+    refusals = [b for b, t in blocks.items() if "assert_failed" in t]
+    if not refusals:
+        return False, "no refusal assertion (assert_failed call) left in try_convert_vec_in_place"
+    # which flag guards drop(_1)?
+    guard = None
+    for b, t in blocks.items():
+        sm = re.search(r"switchInt\(copy (_\d+)\) -> \[0: (bb\d+), otherwise: (bb\d+)\]", t)
+        if sm and re.search(r"drop\(_1\)", blocks.get(sm.group(3), "")):
+            guard = sm.group(1)
+    uncond = any(re.search(r"drop\(_1\)", t) for t in blocks.values())
+    if not uncond:
+        return False, "no unwind path drops the input vector"
+    # forward data-flow of the guard flag
+    state = {"bb0": {None}}
+    work = ["bb0"]
+    at_refusal = {}
+    while work:
+        b = work.pop()
+        vals = set(state[b])
+        t = blocks.get(b, "")
+        outvals = set()
+        for v0 in vals:
+            v_ = v0
+            for line in t.split("\n"):
+                fm = re.match(r"\s*(_\d+) = const (true|false);", line)
+                if fm and fm.group(1) == guard:
+                    v_ = (fm.group(2) == "true")
+                if "assert_failed" in line:
+                    at_refusal.setdefault(b, set()).add(v_)
+            outvals.add(v_)
+        for s_ in succ.get(b, []):
+            if s_ not in blocks:
+                continue
+            new = state.get(s_, set()) | outvals
+            if new != state.get(s_, set()):
+                state[s_] = new
+                work.append(s_)
+    if guard is None:
+        return True, "the input vector is dropped unconditionally on unwinding"
+    bad = {b: v for b, v in at_refusal.items() if v != {True}}
+    if bad:
+        return False, "at the refusal assertion in %s the input vector may already have been moved out (drop flag %s = %s)" % (sorted(bad), guard, bad)
+    return True, "at every refusal assertion (%s) the drop flag %s of the input vector is set: unwinding drops it" % (sorted(at_refusal), guard)
+
+
 def _expected_refusal(fc):
     return (fc["file"].endswith("truc_runtime/src/convert.rs") and "try_convert_vec_in_place" in fc["func"]
             and "{closure" not in fc["func"])
@@ -153,6 +219,29 @@ def run(pid, tier):
             v.inconc("panic-model side condition does not hold on this tree: %s" % side_txt)
 
     candidates = []   # (harness, reason)
+    refusal_txt = ""
+    if pid == "C10":
+        rok, refusal_txt = refusal_side_condition()
+        v.note("refusal side condition: %s" % refusal_txt)
+        if rok is None:
+            v.inconc("refusal side condition could not be evaluated: %s" % refusal_txt)
+        elif rok is False:
+            # replayed natively with one concrete refused vector (two elements)
+            for prof in ("dev", "release"):
+                _build_native(prof)
+            rdir = replay_dir(pid)
+            shown = False
+            for hn in ("c10_size_eq_align_ne_n3", "c10_size_ne_align_eq_n3", "c10_rev_align_16_to_8_n3"):
+                path = os.path.join(rdir, "%s-side-condition.replay" % hn)
+                vals = [[2, 0, 0, 0, 0, 0, 0, 0], [0]] + [[1], [0], [7]] * 3 + [[0]]
+                kani.write_replay_file(path, hn, vals, comment="concrete witness for the MIR side condition: %s" % refusal_txt)
+                fails = _native_replay(path, "dev")[0] + _native_replay(path, "release")[0]
+                fails = [f for f in fails if f.startswith("C10")]
+                if fails and not shown:
+                    shown = True
+                    v.violation(path, "MIR: %s; native replay: %s" % (refusal_txt, fails[0]))
+            if not shown:
+                v.inconc("refusal side condition fails (%s) but the native replays show nothing" % refusal_txt)
     total_checks = 0
     solver_s = 0.0
     samples = []
@@ -252,7 +341,7 @@ def run(pid, tier):
         "queries": len(names),
         "solver_s": round(solver_s, 1),
         "repo_head": repo_head(),
-        "side_condition": side_txt,
+        "side_condition": side_txt or refusal_txt,
         "stubs": sorted({s for n in names for s in res[n].stubs}),
         "exhaustive": False,
     }
